@@ -44,13 +44,20 @@ def extra_search_problems(rng):
 
 def extra_program_problems(rng):
     """Instances used for the program correspondence only (too large for the brute-force rule differential): the standard
-    9 x 9 board, called WITHOUT `n`."""
+    9 x 9 board, called WITHOUT `n`, then a 16 x 16 (n = 4, 256 cells) and a 25 x 25 board (n = 5, 625 cells; the board is
+    square by construction) with a third of the digits of a permuted valid grid given."""
     n, size = 3, 9
     base = [[(n * (y % n) + y // n + x) % size + 1 for x in range(size)] for y in range(size)]
     out = []
     for keep in (0.0, 0.3, 1.0):
         pb = [[base[y][x] if rng.random() < keep else 0 for x in range(size)] for y in range(size)]
         out.append({"n": 3, "problem": pb, "default_n": True})
+    for n in (4, 5):
+        size = n * n
+        perm = list(range(1, size + 1))
+        rng.shuffle(perm)
+        pb = [[perm[(n * (y % n) + y // n + x) % size] if rng.random() < 0.35 else 0 for x in range(size)] for y in range(size)]
+        out.append({"n": n, "problem": pb})
     return out
 
 
